@@ -8,7 +8,8 @@
 (***************************************************************************)
 EXTENDS Wire
 
-CONSTANTS MaxVals,     \* cap on the number of values per struct type
+CONSTANTS SetDups,     \* TRUE: set values with two equal elements are in the universe (C18)
+          MaxVals,     \* cap on the number of values per struct type
           Depth,       \* nesting depth of struct values
           ReadVals,    \* number of values per struct used for read cases
           Breadth      \* "narrow" | "wide": how many perturbations per read case
@@ -44,7 +45,7 @@ Vals(t, d) ==
     [] t.n = "list" -> LET E == Take(Vals(t.v, d), 2) IN
          {[l |-> <<>>]} \cup {[l |-> <<e>>] : e \in E} \cup {[l |-> <<e1, e2>>] : e1 \in E, e2 \in E}
     [] t.n = "set" -> LET E == Take({e \in Vals(t.v, d) : KeyOK(e)}, 2) IN
-         {[l |-> <<>>]} \cup {[l |-> <<e>>] : e \in E} \cup {[l |-> <<q[1], q[2]>>] : q \in {p \in E \X E : p[1] # p[2]}}
+         {[l |-> <<>>]} \cup {[l |-> <<e>>] : e \in E} \cup {[l |-> <<q[1], q[2]>>] : q \in {p \in E \X E : SetDups \/ p[1] # p[2]}}
     [] t.n = "map" -> LET K == Take({e \in Vals(t.k, d) : KeyOK(e)}, 2)
                           V == Take(Vals(t.v, d), 2) IN
          {[m |-> <<>>]} \cup {[m |-> <<<<k, v>>>>] : k \in K, v \in V}
